@@ -23,3 +23,79 @@ package main
 //@   ensures c.total == old(c.total) + 1
 //@   ensures c.value == ceil8(c.total)
 //@   ensures c.value >= c.total && c.value % 8 == 0 && c.value - c.total <= 7
+//
+// ---- matching state (C02, C03) ----
+// SnowflakeHeap: heap.Interface laws proved for the real methods.
+//   shIndexed  every entry knows its own position (so entries are pairwise distinct)
+//   shHeap     heap order on the self-reported client count, with its consequence that the root is a minimum
+//              (assumed from container/heap's contract and from the empty heap, never proved here)
+//   shMember   s is in the heap
+//@ default model int
+//@ pred shIndexed(sh SnowflakeHeap) = forall i int :: 0 <= i && i < len(sh) ==> sh[i] != nil && allocated(sh[i]) && sh[i].index == i
+//@ pred shHeap(sh SnowflakeHeap) = (forall i int :: 1 <= i && i < len(sh) ==> !(sh[i].clients < sh[(i-1)>>1].clients)) && (forall i int :: 0 <= i && i < len(sh) ==> !(sh[i].clients < sh[0].clients))
+//@ pred shMember(sh SnowflakeHeap, s *Snowflake) = s != nil && 0 <= s.index && s.index < len(sh) && sh[s.index] == s
+//
+//@ func (sh SnowflakeHeap) Len() (r int)
+//@   props C03, C02
+//@   ensures r == len(sh)
+//
+//@ func (sh SnowflakeHeap) Less(i int, j int) (r bool)
+//@   props C03, C02
+//@   requires shIndexed(sh) && 0 <= i && i < len(sh) && 0 <= j && j < len(sh)
+//@   ensures {fewest-clients-sort-first} r == (sh[i].clients < sh[j].clients)
+//
+//@ func (sh SnowflakeHeap) Swap(i int, j int)
+//@   props C03, C02
+//@   requires shIndexed(sh) && 0 <= i && i < len(sh) && 0 <= j && j < len(sh)
+//@   ensures shIndexed(sh)
+//@   ensures sh[i] == old(sh[j]) && sh[j] == old(sh[i])
+//@   ensures forall k int :: 0 <= k && k < len(sh) && k != i && k != j ==> sh[k] == old(sh[k])
+//
+//@ func (sh *SnowflakeHeap) Push(s interface{})
+//@   props C03, C02
+//@   requires sh != nil && shIndexed(*sh) && tagis(s, *Snowflake) && unbox(s, *Snowflake) != nil && allocated(unbox(s, *Snowflake)) && !shMember(*sh, unbox(s, *Snowflake))
+//@   requires forall i int :: 0 <= i && i < len(*sh) ==> (*sh)[i] != unbox(s, *Snowflake)
+//@   ensures shIndexed(*sh) && len(*sh) == old(len(*sh)) + 1 && (*sh)[old(len(*sh))] == unbox(s, *Snowflake)
+//@   ensures forall k int :: 0 <= k && k < old(len(*sh)) ==> (*sh)[k] == old((*sh)[k])
+//
+//@ func (sh *SnowflakeHeap) Pop() (r interface{})
+//@   props C03, C02
+//@   requires sh != nil && shIndexed(*sh) && len(*sh) > 0
+//@   ensures shIndexed(*sh) && len(*sh) == old(len(*sh)) - 1
+//@   ensures tagis(r, *Snowflake) && unbox(r, *Snowflake) == old((*sh)[len(*sh)-1]) && unbox(r, *Snowflake).index == -1
+//@   ensures forall k int :: 0 <= k && k < len(*sh) ==> (*sh)[k] == old((*sh)[k])
+//
+// The matching state is protected by snowflakeLock. s.inHeap (ghost, maintained by the container/heap contract) is
+// the heap s is currently filed in. Pool invariant: the heap `snowflakes` holds only proxies that reported an
+// unrestricted NAT, `restrictedSnowflakes` holds none of those; members have a position, non-members have index -1
+// only after they were removed.
+//@ invariant BrokerContext(ctx) guard snowflakeLock: ctx.snowflakes != nil && ctx.restrictedSnowflakes != nil && ctx.snowflakes != ctx.restrictedSnowflakes && ctx.idToSnowflake != nil
+//@   protects O!broker.SnowflakeHeap, elems(*Snowflake), Snowflake.index, idToSnowflake, ghost Snowflake.inHeap
+//@   clause {unrestricted-pool-holds-only-unrestricted} forall s *Snowflake :: s.inHeap == ctx.snowflakes ==> s.natType == NATUnrestricted
+//@   clause {other-pool-holds-no-unrestricted} forall s *Snowflake :: s.inHeap == ctx.restrictedSnowflakes ==> s.natType != NATUnrestricted
+//@   clause {members-have-a-position} forall s *Snowflake :: s.inHeap != nil ==> s.index != -1
+//@   clause {no-private-object-is-filed} forall s *Snowflake :: s.inHeap != nil ==> allocated(s)
+//
+//@ ghost var poolLen int
+//
+// matchSnowflake: NAT compatibility table, refusal only when the eligible pool is empty, fewest clients first.
+//@ func (i *IPC) matchSnowflake(natType string) (r *Snowflake)
+//@   props C03, C02
+//@   flag paths
+//@   requires i != nil && i.ctx != nil
+//@   at call Len assert {refusal-looks-at-the-eligible-pool} (natType == NATUnrestricted ==> len(arg0) == len(*i.ctx.restrictedSnowflakes) && base(arg0) == base(*i.ctx.restrictedSnowflakes)) && (natType != NATUnrestricted ==> len(arg0) == len(*i.ctx.snowflakes) && base(arg0) == base(*i.ctx.snowflakes)) && held(&i.ctx.snowflakeLock)
+//@   after call Len ghost poolLen = ret0
+//@   at call Pop assert {pops-the-eligible-pool-under-the-lock} held(&i.ctx.snowflakeLock) && (natType == NATUnrestricted ==> unbox(arg0, *SnowflakeHeap) == i.ctx.restrictedSnowflakes) && (natType != NATUnrestricted ==> unbox(arg0, *SnowflakeHeap) == i.ctx.snowflakes)
+//@   ensures {restricted-or-unknown-client-gets-unrestricted-proxy} natType != NATUnrestricted && r != nil ==> r.natType == NATUnrestricted
+//@   ensures {unrestricted-client-served-from-the-other-pool} natType == NATUnrestricted && r != nil ==> r.natType != NATUnrestricted
+//@   ensures {refused-iff-eligible-pool-empty} (r == nil) <==> (poolLen == 0)
+//@   ensures {given-a-least-loaded-proxy-of-that-pool} r != nil ==> r.index == -1 && r.inHeap == nil && (forall s *Snowflake :: (natType == NATUnrestricted ==> s.inHeap == i.ctx.restrictedSnowflakes) && (natType != NATUnrestricted ==> s.inHeap == i.ctx.snowflakes) ==> !(s.clients < r.clients))
+//
+// AddSnowflake: a fresh entry with private channels, filed in the pool of its NAT type (the pool invariant is
+// checked when the lock is released).
+//@ func (ctx *BrokerContext) AddSnowflake(id string, proxyType string, natType string, clients int) (r *Snowflake)
+//@   props C03, C02
+//@   requires ctx != nil
+//@   flag nosafety paths
+//@   ensures r != nil && fresh(r) && r.id == id && r.natType == natType && r.proxyType == proxyType && r.clients == clients
+//@   ensures {private-channels} fresh(r.offerChannel) && fresh(r.answerChannel) && r.offerChannel != r.answerChannel
